@@ -259,6 +259,89 @@ pub proof fn lemma_trem_zero_iff(a: int, b: int)
     }
 }
 
+
+// ------------------------------------------------------------------ division
+/// result (qi, S) of dividing n (at scale s0) by d with at least maxp significant digits:
+/// with E = |n|*10^(S-s0), t = floor(E/|d|), rho = E mod |d|:  |qi| = t rounded half-up on rho/|d|,
+/// digits are only dropped (rho != 0) once t has maxp digits, and the sign is the product of the signs
+pub open spec fn div_post(n: int, d: int, s0: int, maxp: int, qi: int, ss: int) -> bool {
+    let e = iabs(n) * pow10(ss - s0);
+    let dd = iabs(d);
+    let t = e / dd;
+    let rho = e % dd;
+    &&& ss >= s0
+    &&& iabs(qi) == t + (if 2 * rho >= dd { 1int } else { 0int })
+    &&& t >= 1
+    &&& (rho != 0 ==> ndigits(t) >= maxp)
+    &&& isgn(qi) == isgn(n) * isgn(d)
+}
+
+pub proof fn lemma_tdiv_nonneg(a: int, b: int)
+    requires a >= 0, b > 0
+    ensures tdiv(a, b) == a / b, trem(a, b) == a % b, a / b >= 0
+{
+    lemma_fundamental_div_mod(a, b);
+    lemma_div_pos_is_pos(a, b);
+}
+
+pub proof fn lemma_div_exact(e: int, d: int, q: int)
+    requires d > 0, e == d * q
+    ensures e / d == q, e % d == 0
+{
+    assert(e == q * d + 0) by (nonlinear_arith) requires e == d * q;
+    lemma_fundamental_div_mod_converse(e, d, q, 0);
+}
+
+/// the next quotient digit: 0 <= floor(10*rho/d) <= 9 for 0 <= rho < d
+pub proof fn lemma_digit_quotient(rho: int, d: int)
+    requires 0 <= rho < d
+    ensures 0 <= (10 * rho) / d <= 9
+{
+    lemma_fundamental_div_mod(10 * rho, d);
+    lemma_mod_bound(10 * rho, d);
+    let q = (10 * rho) / d;
+    lemma_div_pos_is_pos(10 * rho, d);
+    if q >= 10 { assert(d * q >= d * 10) by (nonlinear_arith) requires d > 0, q >= 10; }
+}
+
+/// appending a digit adds exactly one decimal digit
+pub proof fn lemma_ndigits_shift(x: int, q: int)
+    requires x >= 1, 0 <= q <= 9
+    ensures ndigits(x * 10 + q) == ndigits(x) + 1
+{
+    let y = x * 10 + q;
+    assert(y >= 10);
+    lemma_fundamental_div_mod_converse(y, 10, x, q);
+    assert(y / 10 == x);
+}
+
+/// the rounding digit floor(10*rho/d) is >= 5 exactly when 2*rho >= d; a single digit has one decimal digit
+pub proof fn lemma_round_digit(rho: int, d: int)
+    requires 0 <= rho < d
+    ensures ({ let dg = (10 * rho) / d; (dg > 0 && 2 * dg >= pow10(ndigits(dg))) <==> 2 * rho >= d })
+{
+    lemma_digit_quotient(rho, d);
+    let dg = (10 * rho) / d;
+    lemma_fundamental_div_mod(10 * rho, d);
+    lemma_mod_bound(10 * rho, d);
+    lemma_pow10_1();
+    assert(ndigits(dg) == 1);
+    let r = (10 * rho) % d;
+    assert(10 * rho == d * dg + r);
+    if dg >= 5 { assert(d * dg >= d * 5) by (nonlinear_arith) requires d > 0, dg >= 5; }
+    else { assert(d * dg <= d * 4) by (nonlinear_arith) requires d > 0, dg <= 4; }
+}
+
+
+/// every shape a decimal / decimal result takes: zero numerator, unit divisor and equal unscaled integers are
+/// returned exactly; everything else is div_post at the difference of scales with maxp digits
+pub open spec fn quot_cases(ai: int, a_s: int, bi: int, bs: int, maxp: int, ri: int, rs: int) -> bool {
+    ||| (ai == 0 && ri == 0)
+    ||| (same_val(bi, bs, 1, 0) && ri == ai && rs == a_s)
+    ||| (ai == bi && ri == 1 && rs == a_s - bs)
+    ||| div_post(ai, bi, a_s - bs, maxp, ri, rs)
+}
+
 /// every shape a multiplication result takes in the crate: exact product, an operand (or anything equal
 /// to it, e.g. its normalized form) when the other operand equals one, zero when an operand is zero
 pub broadcast proof fn b_mul_cases(ri: int, rs: int, ai: int, a_s: int, bi: int, bs: int)
